@@ -20,6 +20,7 @@ Named(e) ==
     [] e.op = "AllocN" -> AllocN(e.k)
     [] e.op = "Put" -> Put(e.n, e.g, e.v)
     [] e.op = "PutStm" -> PutStm(e.n, e.g, e.v)
+    [] e.op = "PutBad" -> PutBad(e.n)
     [] e.op = "OpenStream" -> OpenStream(e.n, e.g, e.v, e.lg)
     [] e.op = "OpenStreamBad" -> OpenStreamBad(e.n, e.g, e.why)
     [] e.op = "OpenWhileOpen" -> OpenWhileOpen
